@@ -1,63 +1,40 @@
 """C01 — run() computes exactly the least model (positive programs).
 
 Oracle: naive reference evaluator (vgen/ref.py) on the same input; plus a closure check of Ascent's own
-output (one naive pass of every rule over it derives nothing new) and input containment."""
+output (one naive pass of every rule over it derives nothing new)."""
 import json
 import random
 
-from vlib import core, pipeline as P
-from vgen import gen as G, ref as R, emit as E
-from vgen.ast import *
+from vlib import core, pipeline as P, diffrun
+from vgen import gen as G, emit as E
 
 LEVEL = 'exploration'
 
 
 def sizes(ctx):
-    if ctx.tier == 'quick':
-        return dict(programs=64, inputs=24)
-    return dict(programs=640, inputs=120)
+    return dict(programs=64, inputs=24) if ctx.tier == 'quick' else dict(programs=640, inputs=100)
 
 
 def gen_cases(ctx, n_programs, n_inputs):
     cases = []
-    attempts = 0
-    while len(cases) < n_programs and attempts < n_programs * 5:
-        attempts += 1
+    while len(cases) < n_programs:
         rng = random.Random(ctx.rng.getrandbits(48))
         cfg = G.Cfg()
-        # hostile biases: tiny domains, many joins on few relations
-        cfg.dom = rng.choice([2, 3, 4, 5, 6])
+        cfg.dom = rng.choice([2, 3, 4, 5, 6])      # tiny domains: the same tuple is derived many ways
         if rng.random() < 0.3:
-            cfg.n_rels = (2, 3)
-            cfg.n_rules = (3, 6)
+            cfg.n_rels, cfg.n_rules = (2, 3), (3, 6)
         prog, input_rels = G.gen_positive_program(rng, cfg)
-        if G.check_scoping(prog):
-            raise RuntimeError('generator produced ill-scoped program: %s\n%s' % (G.check_scoping(prog), prog.text()))
+        assert not G.check_scoping(prog), (G.check_scoping(prog), prog.text())
         name = 'c%d' % len(cases)
         v = E.Variant('v0', prog, 'ascent')
-        case = P.Case(name, prog, [v], meta={'dom': cfg.dom, 'input_rels': input_rels})
+        case = P.Case(name, prog, [v], meta={'dom': cfg.dom})
         loadable = [r.name for r in prog.rels]
         for ii in range(n_inputs):
             # inputs mostly into input relations, sometimes into derived ones too (facts may sit anywhere)
             targets = input_rels if rng.random() < 0.7 else loadable
-            rows = G.gen_input(rng, prog, targets, cfg.dom)
-            case.jobs.append(P.Job('%s_i%d' % (name, ii), case, v, rows))
+            case.jobs.append(P.Job('%s_i%d' % (name, ii), case, v, G.gen_input(rng, prog, targets, cfg.dom)))
         cases.append(case)
     return cases
-
-
-def closure_violations(prog, actual_db):
-    """tuples derivable in one naive pass over Ascent's own result that are not in it"""
-    out = []
-    for ri, rule in enumerate(prog.rules):
-        for env in R.solve(prog, actual_db, rule.body, 0, {}):
-            for h in rule.heads:
-                tup = tuple(a.ev(env) for a in h.args)
-                if tup not in actual_db[h.rel]:
-                    out.append((ri, h.rel, tup))
-                    if len(out) > 5:
-                        return out
-    return out
 
 
 def run(ctx, only=None):
@@ -65,96 +42,17 @@ def run(ctx, only=None):
     cases = gen_cases(ctx, sz['programs'], sz['inputs'])
     if only:
         cases = [c for c in cases if c.name == only]
-    ctx.rule = ('random positive Ascent programs (2-6 relations, 3-8 rules, joins / constants / repeated vars / wildcards / '
-                'expression args / ?Some patterns / if / let / if-let / for / disjunctions / multi-head rules / facts, domains of 2-6 values) '
-                'x random, skewed and program-directed inputs; a case = (program, input); non-trivial = the reference derived at least one '
-                'tuple beyond the input through a rule with >= 2 body items; distinct = distinct (program text, input) pairs')
-    ctx.assumptions = ['reference evaluator vgen/ref.py and the two printers of vgen/ast.py are correct (cross-checked by ./check --selftest)',
-                       'rustc compiles the pasted expressions with the semantics mirrored in vgen/ast.py (non-negative operands, no overflow below the cap)']
-    tasks = []
-    index = []
-    for c in cases:
-        for j in c.jobs:
-            index.append(j)
-            tasks.append((c.ref_prog, j.input_rows))
-
-    refs = {}
-
-    def overlap():
-        res = P.ref_eval_many(tasks)
-        for j, r in zip(index, res):
-            refs[j.id] = r
-        return len(res)
-
-    stats = P.build_and_run(ctx, cases, overlap=overlap)
-    ctx.cov.update({'programs': stats['programs'], 'build_s': stats['build_s'], 'run_s': stats['run_s'],
-                    'compile_failures': stats['compile_failures']})
-    iters_hist = {}
-    for c in cases:
-        if c.build_failed:
-            # a well-formed generated program that does not compile: inconclusive here (C15 owns that direction)
-            ctx.inconc('program %s did not compile: %s' % (c.name, list(c.build_failed.values())[0][:300]))
-            continue
-        prog = c.ref_prog
-        text = prog.text()
-        for j in c.jobs:
-            status, db, tsum, nontrivial = refs[j.id]
-            if status != 'ok':
-                ctx.inconc('reference failed on %s: %s' % (j.id, db))
-                continue
-            jr = j.result
-            witness = {'case': c.name, 'job': j.id, 'program': text, 'input': P.show_rows(prog, j.input_rows),
-                       'replay_hint': 'regenerate with the same VERIF_SEED/tier; case name selects the program'}
-            if jr is None or (jr.crash and not jr.reps):
-                kind = jr.crash[0] if jr and jr.crash else 'no-result'
-                if kind in ('crash', 'hang') and 'undiagnosed' not in (jr.crash[1] if jr and jr.crash else ''):
-                    witness['summary'] = 'run() did not return: %s' % (jr.crash,)
-                    ctx.violation(j.id, witness, {'kind': kind})
-                else:
-                    ctx.inconc('no result for %s (%s)' % (j.id, kind))
-                continue
-            ctx.evaluations += 1
-            if jr.panics:
-                witness['summary'] = 'run() panicked: %s' % jr.panics[0]
-                ctx.violation(j.id, witness, {'kind': 'panic', 'message': jr.panics[0]})
-                continue
-            step = jr.reps[0][1][-1]
-            diffs = P.compare_step_to_db(prog, step, db)
-            # closure of Ascent's own output
-            actual_db = R.new_db(prog)
-            for relname, rows in step['rels'].items():
-                for t in P.parse_rel_rows(prog, relname, rows):
-                    actual_db[relname].add(t)
-            missing_inputs = [(rel, tup) for rel, tup in j.input_rows if tup not in actual_db[rel]]
-            if not diffs:
-                cv = closure_violations(prog, actual_db)
-                if cv:
-                    diffs.append({'closure': [(ri, rel, R.show_row(prog, rel, t)) for ri, rel, t in cv]})
-            if missing_inputs:
-                diffs.append({'missing_inputs': P.show_rows(prog, missing_inputs[:10])})
-            if diffs:
-                witness['diffs'] = diffs
-                witness['summary'] = 'relations differ from the least model: %s' % json.dumps(diffs)[:300]
-                ctx.violation(j.id, witness, {'kind': 'diff', 'rels': sorted(d.get('rel', '?') for d in diffs)})
-                continue
-            for part in step['scc'].split(','):
-                if ':' in part:
-                    it = int(part.split(':')[1])
-                    b = '1' if it <= 1 else '2-3' if it <= 3 else '4-9' if it <= 9 else '10+'
-                    iters_hist[b] = iters_hist.get(b, 0) + 1
-            ctx.count('sccs_total', len([p for p in step['scc'].split(',') if p]))
-            if nontrivial:
-                ctx.add_nontrivial(text, repr(j.input_rows))
-                ctx.cov_max('max_reference_passes', tsum['max_passes'])
-            if len(ctx.samples) < 2 and nontrivial and tsum['derived'] >= 3:
-                ctx.sample({'program': text.split('\n'), 'input': P.show_rows(prog, j.input_rows),
-                            'output': {k: v for k, v in step['rels'].items()}, 'scc_iterations': step['scc'], 'reference_trace': tsum})
-    ctx.cov['scc_iteration_histogram'] = iters_hist
+    ctx.rule = ('random positive Ascent programs (2-6 relations, 3-8 rules; joins, constants, repeated variables, wildcards, '
+                'expression arguments, ?Some patterns, if / let / if-let, for-generators, disjunctions, multi-head rules, facts; domains of 2-6 values) '
+                'x random, skewed, duplicated and program-directed inputs (also into derived relations). case = (program, input); non-trivial = the '
+                'reference derived >= 1 tuple beyond the input through a rule with >= 2 body items; distinct = distinct (program text, input)')
+    ctx.assumptions = ['reference evaluator vgen/ref.py and the two printers of vgen/ast.py (cross-checked by ./check --selftest)',
+                       'rustc gives the pasted expressions the semantics mirrored in vgen/ast.py (non-negative operands, no overflow below the cap)']
+    diffrun.run_cases(ctx, cases)
 
 
 def replay(ctx, path):
     w = json.load(open(path))
-    ctx.seed = w.get('seed', ctx.seed)
-    ctx.tier = w.get('tier', ctx.tier)
+    ctx.seed, ctx.tier = w.get('seed', ctx.seed), w.get('tier', ctx.tier)
     ctx.rng = random.Random(core.stable_hash('%s/%d' % (ctx.prop, ctx.seed)))
     run(ctx, only=w['case'])
